@@ -88,6 +88,11 @@ Section WithRegistry.
     | _ => if contains c_colon rf then valid_digest rf else valid_tag rf
     end.
 
+  (* Reference.Validate: registry, repository, then ValidateReference (empty, or digest when it
+     contains a colon, else tag) *)
+  Definition validate (r : reference) : bool :=
+    valid_registry (r_registry r) && valid_repository (r_repository r) && validate_reference (r_reference r).
+
   (* Repository.ParseReference with base reference (breg, brepo).  [strict] = the code after the
      fix "rejects a malformed path in front of '@digest'": what precedes the '@' in the fallback
      branch must not contain a slash.  [strict = false] is the code before that fix, kept for the
